@@ -77,7 +77,9 @@ def run_impl(logls, sched, expectation, nlive, int_schedule):
     early = {len(logls) // 2, max(1, len(logls) - 1)}
     for i_, (l, n) in enumerate(zip(logls, sched)):
         for s_ in (st, twin):
-            if int_schedule and n == nlive:
+            # a count equal to the state's own nlive is passed implicitly (default argument), any other
+            # explicitly: per-iteration schedules therefore mix default and explicit calls in every order
+            if float(n) == float(nlive):
                 s_.increment(l)
             else:
                 s_.increment(l, nlive=n if not float(n).is_integer() else int(n))
